@@ -14,7 +14,8 @@ RULE = ("histories of merge/delete operations threaded through the returned inde
         "length<=3, n=5 length<=2). Random part: sizes up to 40 (CPython set order wraps from n>=9), up to 8 operations, join "
         "lists with repeats, overlaps, already merged / already deleted members, dense and csr; the same histories with the matrix in "
         "14 representations (int / Fortran / strided dense, csr incl. unsorted and explicit zeros, csc, coo incl. duplicates, lil, "
-        "dok, csr_matrix, np.matrix) and join / deletion lists as lists, tuples, arrays, numpy integers, sets; cut_and_merge with all four "
+        "dok, csr_matrix, np.matrix) and join / deletion lists as lists, tuples, arrays, numpy integers, sets, and (with a threaded "
+        "index list) single-pass iterables: generators, map / zip objects, lists of iterators, frozensets; cut_and_merge with all four "
         "limit combinations. A case is non-trivial when at least one operation changes the matrix size; distinct by (matrix, ops).")
 CHUNK = 1500
 
@@ -86,7 +87,8 @@ def all_ops(n, rng, forms=True):
 
 DENSE_REPS = ("dense", "int", "fortran", "strided")
 MAT_REPS = DENSE_REPS + ("csr", "csr_unsorted", "csr_zeros", "csc", "coo", "coo_dup", "lil", "dok", "csr_matrix", "np_matrix")
-J_REPS = ("list", "tuple", "arr", "2d", "npint")
+J_REPS = ("list", "tuple", "arr", "2d", "npint", "gen", "map", "zip", "iters", "frozenset")
+SINGLE_PASS = ("gen", "map", "zip", "iters", "frozenset")   # accepted once an index list is threaded (the first call deep-copies)
 R_REPS = ("list", "tuple", "arr", "npint", "set")
 
 
@@ -138,7 +140,21 @@ def mat_in(M, rep):
     raise core.HarnessError(f"unknown matrix representation {rep}")
 
 
-def joins_in(J, rep):
+def joins_in(J, rep, threaded=True):
+    if rep in SINGLE_PASS and not threaded:
+        rep = "list"
+    if rep == "gen":
+        return (list(x) for x in J)
+    if rep == "map":
+        return map(list, J)
+    if rep == "zip":
+        if J and all(len(x) == 2 for x in J):
+            return zip([x[0] for x in J], [x[1] for x in J])
+        return (tuple(x) for x in J)
+    if rep == "iters":
+        return [iter(list(x)) for x in J]
+    if rep == "frozenset":
+        return [frozenset(x) for x in J]
     if rep == "list":
         return [list(x) for x in J]
     if rep == "tuple":
@@ -223,7 +239,7 @@ def cases(ctx):
                        "ops": ops, "mrep": mrep, "jrep": "list", "rrep": "list"}
         for jrep in J_REPS:
             for rrep in R_REPS:
-                mrep = "csr" if jrep in ("arr", "2d") else "dense"
+                mrep = "csr" if jrep in ("arr", "2d", "gen", "iters") else "dense"
                 yield {"kind": "hist", "n": 6, "variant": "sym", "sparse": mrep == "csr", "ops": ops,
                        "mrep": mrep, "jrep": jrep, "rrep": rrep}
     for _ in range(60 if ctx.quick else 900):
@@ -320,7 +336,7 @@ def impl(case):
         try:
             with core.quiet():
                 if op["k"] == "merge":
-                    A, il = merge_matrix_cells(A, joins_in(op["J"], jrep), index_list=il)
+                    A, il = merge_matrix_cells(A, joins_in(op["J"], jrep, threaded=il is not None), index_list=il)
                 else:
                     A, il = delete_rate_cells(A, dels_in(op["R"], rrep), index_list=il)
         except Exception as e:
